@@ -68,6 +68,10 @@ CHECKS = {
    technique="deviation-bounded exhaustive search: every subset of literal sites replaced by value references x every placement of the value definitions x every load order, resolved by the real MultiModuleResolver in worker processes and compared with the all-literal module through the C07 projection",
    text="18 base schemas (INTEGER bounds incl. 0 and i64::MAX next to MAX, SIZE lower/upper/fixed/equal/extensible in both spellings and on SEQUENCE OF / SET OF, DEFAULT of INTEGER/BOOLEAN/string, nested types); every subset of <= 2 (quick) / all (thorough) sites; 8 placements (same module before/after use, sibling by name, by OID, by OID with a same-name decoy module of another OID, local definition shadowing an import, differently spelled OID, unrelated module defining the same names); every permutation of the load order. Negative space: undefined / not exported / BOOLEAN or string where an integer is needed must give a resolve error in every order.",
    note="Runs in worker processes because a wrong import match can recurse without bound (stack overflow = abort), which is then attributed to the case instead of killing the check."),
+ "C08": dict(engine="e_codegen", category="translation_validation", design="5/C08",
+   technique="bounded-exhaustive enumeration of modules; on each one two translations are validated against each other: generator output re-read by the real attribute parser must give the generator's Rust model back, and the constants of the real expand() output must equal constraints computed from the abstract module",
+   text="programs: the whole C07 module space (332 leaf forms x tag forms x 11 component contexts, lists with every SIZE form, DEFAULT literals of every kind, named numbers/bits, depth-2 nestings), every SEQUENCE/SET presence/extension shape with <= 4 (quick) / 6 (thorough) components, and the 37 inline modules of the repository's own tests. Oracle 1: for every definition, to_rust_keep_names(parse_asn_definition(attr, item)) of the generated item == to_rust(M) (exact Debug equality; exempt only: own derived tag of an untagged CHOICE, effective tag of T ::= Other, Rust spelling of an enumeration item in a DEFAULT). Oracle 2: sequence/set STD_OPTIONAL_FIELDS, FIELD_COUNT, EXTENDED_AFTER_FIELD; choice/enumerated EXTENSIBLE, STD_VARIANT_COUNT, VARIANT_COUNT; per component/alternative/element integer MIN/MAX/EXTENSIBLE, size MIN/MAX/EXTENSIBLE under the right trait, DEFAULT_VALUE - each compared with the value computed from the abstract module, never from the subject's model.",
+   note="Known findings KF-C08-MIN-ZERO, KF-C08-SEMI-63, KF-C08-ZERO-MAX, KF-C08-MARKER-FIRST (the constants faithfully carry the front end's recorded misreadings). Fixed: 3aae80a, be05253."),
 }
 
 NOT_YET = {
